@@ -311,6 +311,58 @@ func c03LeqMax(a [c03D]int64, max c03RL) bool {
 	return true
 }
 
+// checkTreeConsistent tests the hypothesis `TreeConsistent` of the reset theorem (Lean: resetAll_inv) on the
+// implementation's own report, with the is-parent flags the reset will see: what the groups of a subtree own
+// (SelfUsed of an is-parent group, Used otherwise) is non-negative and does not exceed what the subtree's top shows.
+func (w *c03World) checkTreeConsistent() {
+	sums := w.gp.groupQuotaManager.GetQuotaSummaries(false)
+	own := func(id int, np bool) c03RL {
+		s := sums[c03QName(id)]
+		switch {
+		case s == nil:
+			return c03RL{}
+		case w.quotas[id].isParent && np:
+			return c03FromList(s.SelfNonPreemptibleUsed)
+		case w.quotas[id].isParent:
+			return c03FromList(s.SelfUsed)
+		case np:
+			return c03FromList(s.NonPreemptibleUsed)
+		}
+		return c03FromList(s.Used)
+	}
+	for _, g := range w.order {
+		sg := sums[c03QName(g)]
+		if sg == nil {
+			continue
+		}
+		sub := w.below(g)
+		for _, np := range []bool{false, true} {
+			top := c03FromList(sg.Used)
+			if np {
+				top = c03FromList(sg.NonPreemptibleUsed)
+			}
+			var sum [c03D]int64
+			for _, x := range w.order {
+				if !sub[x] {
+					continue
+				}
+				o := own(x, np)
+				for d := 0; d < c03D; d++ {
+					if o.v[d] < 0 {
+						w.h.Fail("C03:reset-assumption", "group %d owns a negative amount %v", x, o.v)
+					}
+					sum[d] += o.v[d]
+				}
+			}
+			for d := 0; d < c03D; d++ {
+				if sum[d] > top.v[d] {
+					w.h.Fail("C03:reset-assumption", "before a tree reset: the groups below %d own %v (np=%v), more than its used %v", g, sum, np, top.v)
+				}
+			}
+		}
+	}
+}
+
 // afterReset: a tree reset cleared every Runtime list (clearForResetNoLock); the next attempt re-reads them.
 func (w *c03World) afterReset() {
 	for _, q := range w.quotas {
@@ -354,6 +406,7 @@ func (w *c03World) metaEvent(r *vRand, pending *int) {
 		q := w.quotas[w.order[r.Intn(len(w.order))]]
 		q.lent = !q.lent
 		resetTags("lent-flip")
+		w.checkTreeConsistent()
 		w.setQuota(q)
 		w.afterReset()
 	case k < 5:
@@ -374,6 +427,7 @@ func (w *c03World) metaEvent(r *vRand, pending *int) {
 		q := w.quotas[ids[r.Intn(len(ids))]]
 		q.isParent = !q.isParent
 		resetTags(fmt.Sprintf("is-parent-flip:%v", q.isParent))
+		w.checkTreeConsistent()
 		w.setQuota(q)
 		w.afterReset()
 	default:
